@@ -8,15 +8,42 @@ use serde_json::{json, Value};
 use std::io::Write;
 
 type R = CodecRegion<DictionaryCodec>;
+type SR = flatcontainer::StringRegion<CodecRegion<DictionaryCodec>>;
 
-struct DSlot {
+/// the region under test: bytes in, bytes out; the string flavour goes through `&str`
+pub trait DictSubject: Region<Index = (usize, usize)> + Default {
+    fn push_bytes(&mut self, b: &[u8]) -> (usize, usize);
+    /// the bytes handed out, and whether they are valid UTF-8 where a `&str` was handed out
+    fn read_bytes(&self, idx: (usize, usize)) -> (Vec<u8>, bool);
+}
+impl DictSubject for R {
+    fn push_bytes(&mut self, b: &[u8]) -> (usize, usize) {
+        self.push(b)
+    }
+    fn read_bytes(&self, idx: (usize, usize)) -> (Vec<u8>, bool) {
+        (self.index(idx).to_vec(), true)
+    }
+}
+impl DictSubject for SR {
+    fn push_bytes(&mut self, b: &[u8]) -> (usize, usize) {
+        self.push(std::str::from_utf8(b).expect("string scenarios carry valid UTF-8"))
+    }
+    fn read_bytes(&self, idx: (usize, usize)) -> (Vec<u8>, bool) {
+        let s: &str = self.index(idx);
+        let b = s.as_bytes().to_vec();
+        let ok = std::str::from_utf8(&b).is_ok();
+        (b, ok)
+    }
+}
+
+struct DSlot<R: DictSubject> {
     r: R,
     ids: Vec<(usize, usize)>,
     first_reads: Vec<Value>,
     dead: bool,
 }
 
-fn used(r: &R) -> usize {
+fn used<R: DictSubject>(r: &R) -> usize {
     let mut u = 0;
     r.heap_size(|a, _| u += a);
     u
@@ -26,15 +53,16 @@ fn bytes_of(v: &Value) -> Vec<u8> {
     v.as_array().map(|a| a.iter().map(|x| x.as_u64().unwrap() as u8).collect()).unwrap_or_default()
 }
 
-fn read(r: &R, idx: (usize, usize)) -> Value {
-    match guarded(|| r.index(idx).to_vec()) {
-        Ok(b) => json!(b),
+fn read<R: DictSubject>(r: &R, idx: (usize, usize)) -> Value {
+    match guarded(|| r.read_bytes(idx)) {
+        Ok((b, true)) => json!(b),
+        Ok((b, false)) => json!({"INVALID_UTF8": b}),
         Err(m) => json!({"PANIC": m}),
     }
 }
 
-pub fn run_scenario<W: Write>(run: u64, ops: &[Value], nslots: usize, out: &mut W) {
-    let mut slots: Vec<DSlot> = (0..nslots).map(|_| DSlot { r: R::default(), ids: vec![], first_reads: vec![], dead: false }).collect();
+pub fn run_scenario<R: DictSubject, W: Write>(run: u64, ops: &[Value], nslots: usize, out: &mut W) {
+    let mut slots: Vec<DSlot<R>> = (0..nslots).map(|_| DSlot { r: R::default(), ids: vec![], first_reads: vec![], dead: false }).collect();
     writeln!(out, "{}", json!({"ev": "reset", "run": run, "nslots": nslots})).unwrap();
     let mut seq = 0u64;
     for op in ops {
@@ -51,7 +79,7 @@ pub fn run_scenario<W: Write>(run: u64, ops: &[Value], nslots: usize, out: &mut 
                     let before = used(&slots[s].r);
                     let res = {
                         let r = &mut slots[s].r;
-                        guarded(|| r.push(v.as_slice()))
+                        guarded(|| r.push_bytes(v.as_slice()))
                     };
                     match res {
                         Err(m) => {
@@ -132,7 +160,7 @@ pub fn run_scenario<W: Write>(run: u64, ops: &[Value], nslots: usize, out: &mut 
     }
 }
 
-pub fn cmd_run(file: &str, out: &str, nslots: usize) {
+pub fn cmd_run(file: &str, out: &str, nslots: usize, as_str: bool) {
     quiet_panics();
     let f = std::fs::File::create(out).expect("create trace");
     let mut w = std::io::BufWriter::new(f);
@@ -151,7 +179,11 @@ pub fn cmd_run(file: &str, out: &str, nslots: usize) {
         run += 1;
         let ops = scn["ops"].as_array().cloned().unwrap_or_default();
         let n = scn["nslots"].as_u64().map(|x| x as usize).unwrap_or(nslots);
-        run_scenario(run, &ops, n, &mut w);
+        if as_str {
+            run_scenario::<SR, _>(run, &ops, n, &mut w);
+        } else {
+            run_scenario::<R, _>(run, &ops, n, &mut w);
+        }
     }
     w.flush().unwrap();
     eprintln!("dict-run: {run} scenarios");
@@ -159,6 +191,48 @@ pub fn cmd_run(file: &str, out: &str, nslots: usize) {
 
 /// Random scenarios: all 256 first bytes, dictionary entries vs. prefixes vs. tags, empty strings,
 /// several sources, generations, and more than 1024 distinct strings with one dominant string.
+/// String scenarios (C04): vocabularies of valid UTF-8 strings whose first bytes spread over the
+/// ASCII and multi-byte lead-byte ranges, many dictionary entries, neighbours that differ in one scalar.
+pub fn cmd_gen_utf8(seed: u64, count: usize, out: &str) {
+    let mut rng = StdRng::seed_from_u64(seed);
+    let mut f = std::io::BufWriter::new(std::fs::File::create(out).expect("create"));
+    let leads = [" ", "0", "a", "z", "\u{1}", "\u{7f}", "ä", "ß", "€", "한", "😀", "\u{80}", "\u{10ffff}"];
+    for k in 0..count {
+        let nvoc = [1usize, 3, 12, 40, 130, 200, 300][k % 7];
+        let nsrc = 1 + k % 3;
+        let mut voc: Vec<String> = vec![];
+        while voc.len() < nvoc {
+            let mut s = String::from(leads[rng.gen_range(0..leads.len())]);
+            s.push_str(&format!("größe-{}", voc.len()));
+            if rng.gen_bool(0.3) {
+                s.push('€');
+            }
+            if !voc.contains(&s) {
+                voc.push(s);
+            }
+        }
+        let mut ops: Vec<Value> = vec![];
+        for (i, s) in voc.iter().enumerate() {
+            ops.push(json!({"op": "push", "s": 1 + (i % nsrc), "v": s.as_bytes(), "n": 1 + (i % 3)}));
+        }
+        ops.push(json!({"op": "merge", "d": 5, "srcs": (1..=nsrc).collect::<Vec<_>>()}));
+        let mut order: Vec<usize> = (0..voc.len()).collect();
+        for i in (1..order.len()).rev() {
+            order.swap(i, rng.gen_range(0..=i));
+        }
+        for &i in order.iter().take(60) {
+            ops.push(json!({"op": "push", "s": 5, "v": voc[i].as_bytes(), "n": 1}));
+        }
+        ops.push(json!({"op": "push", "s": 5, "v": [], "n": 1}));
+        ops.push(json!({"op": "push", "s": 5, "v": "neu-€".as_bytes(), "n": 1}));
+        ops.push(json!({"op": "merge", "d": 4, "srcs": [5]}));
+        for &i in order.iter().take(10) {
+            ops.push(json!({"op": "push", "s": 4, "v": voc[i].as_bytes(), "n": 1}));
+        }
+        writeln!(f, "{}", json!({"nslots": 5, "ops": ops})).unwrap();
+    }
+}
+
 pub fn cmd_gen(seed: u64, count: usize, out: &str) {
     let mut rng = StdRng::seed_from_u64(seed);
     let mut f = std::io::BufWriter::new(std::fs::File::create(out).expect("create"));
